@@ -34,3 +34,48 @@ def nested_iadd_mismatch_mutates_left():
     except Exception:  # noqa: BLE001
         return a.toJson() != before
     return True
+
+
+def _accepts(doc):
+    try:
+        return Factory.fromJson(doc)
+    except Exception:  # noqa: BLE001
+        return None
+
+
+def header_extra_key_accepted():
+    """C15: Factory.fromJson only checks that type/data/version are present"""
+    return _accepts({"type": "Count", "data": 1.0, "version": "1.1", "extra": 5}) is not None
+
+
+def bag_value_type_unchecked():
+    """C15: the value of a Bag entry is not checked against the range; the loaded Bag cannot be serialised"""
+    h = _accepts({"type": "Bag", "data": {"entries": 2.0, "values": [{"w": 1.0, "v": "zz"}, {"w": 1.0, "v": 3.0}], "range": "N"},
+                  "version": "1.1"})
+    if h is None:
+        return False
+    try:
+        h.toJson()
+        return True   # accepted at all: still the finding
+    except Exception:  # noqa: BLE001
+        return True
+
+
+def bag_duplicate_value_last_wins():
+    h = _accepts({"type": "Bag", "data": {"entries": 2.0, "values": [{"w": 1.0, "v": 3.0}, {"w": 5.0, "v": 3.0}], "range": "N"},
+                  "version": "1.1"})
+    return h is not None and len(h.toJson()["data"]["values"]) == 1
+
+
+def optional_name_key_dropped():
+    doc = {"type": "Bin", "data": {"low": 0.0, "high": 1.0, "entries": 0.0, "values:type": "Sum",
+                                   "values": [{"entries": 0.0, "sum": 0.0}, {"entries": 0.0, "sum": 0.0, "name": "x"}],
+                                   "underflow:type": "Count", "underflow": 0.0, "overflow:type": "Count", "overflow": 0.0,
+                                   "nanflow:type": "Count", "nanflow": 0.0}, "version": "1.1"}
+    h = _accepts(doc)
+    return h is not None and "name" not in h.toJson()["data"]["values"][1]
+
+
+def empty_leaf_statistics_normalised():
+    h = _accepts({"type": "Deviate", "data": {"entries": 0.0, "mean": "nan", "variance": 3.5}, "version": "1.1"})
+    return h is not None and h.toJson()["data"]["variance"] != 3.5
